@@ -189,6 +189,11 @@ INNER_MENU = [
     g('RZGate'), g('RYGate'), g('U3Gate'), g('RXXGate'), g('CRYGate'),
     g('RSU3Gate', 3), g('U8Gate'), g('PauliGate', 1), g('FSIMGate'),
     g('ArbitraryCPhaseGate', {'$tuple': [3, 3]}), g('VariableUnitaryGate', 1, [3]),
+    # three-qudit and mixed-radix inner gates: index arithmetic over several
+    # qudits with different radixes is only exercised by these
+    g('CCXGate'), g('CCPGate'),
+    g('ArbitraryCPhaseGate', {'$tuple': [2, 3]}), g('ArbitraryCPhaseGate', {'$tuple': [2, 2, 3]}),
+    g('ConstantUnitaryGate', {'$utry': ['generic', [3, 2, 2], 'UnitaryMatrix']}),
 ]
 SECOND_LEVEL_INNER = [
     g('ControlledGate', {'$gate': g('RZGate')}, 1, 3),
@@ -266,6 +271,22 @@ def composed_specs(inner: dict, info: dict, thorough: bool, second_level: bool =
                     out.append(g('EmbeddedGate', I, list(bigs), [m0, m1]))
         if radixes[0] == radixes[1]:
             out.append(g('EmbeddedGate', I, 3, list(range(radixes[0] - 1)) + [2]))
+    elif len(radixes) == 3 and int(np.prod(radixes)) <= 12:
+        # every target radix tuple over 2..4 (5) (uniform and mixed, e.g.
+        # [2,2,3], [2,3,4], [3,4,2]) x three level-map shapes
+        for bigs in it.product(range(2, 5 + (1 if thorough else 0)), repeat=3):
+            if any(b < r for b, r in zip(bigs, radixes)) or int(np.prod(bigs)) > 64:
+                continue
+            low = [list(range(r)) for r in radixes]
+            top = [list(range(b - r, b))[::-1] for b, r in zip(bigs, radixes)]
+            out.append(g('EmbeddedGate', I, list(bigs)))
+            if top != low:
+                out.append(g('EmbeddedGate', I, list(bigs), top))
+                out.append(g('EmbeddedGate', I, list(bigs), [low[0], top[1], low[2]]))
+                out.append(g('EmbeddedGate', I, list(bigs), [top[0], low[1], top[2]]))
+        if len(set(radixes)) == 1:
+            out.append(g('EmbeddedGate', I, 3))
+            out.append(g('EmbeddedGate', I, 4, list(range(1, radixes[0] + 1))))
     # -- Frozen: every subset of the parameters
     vals = [0.7, PI / 2, 100.3, -2.1, 0.0, 1e-9, 3.3, -0.4]
     if 0 < nparams <= 8:
@@ -292,6 +313,10 @@ def composed_specs(inner: dict, info: dict, thorough: bool, second_level: bool =
             locsets = [
                 [[0, 1]], [[0, 1], [1, 0]], [[0, 1], [1, 2]], [[1, 2], [2, 0]],
                 [[0, 1], [1, 2], [0, 2]], [[2, 0], [1, 0], [0, 1]], [[0, 1], [2, 3]],
+            ]
+        elif len(radixes) == 3:
+            locsets = [
+                [[0, 1, 2]], [[0, 1, 2], [1, 2, 3]], [[0, 1, 2], [2, 0, 1]], [[1, 2, 0], [0, 2, 1]],
             ]
         else:
             locsets = []
